@@ -52,6 +52,8 @@ class Prop(Check):
         "LinkLoc.C28_linecol", "LinkLoc.C28_linecol_identifies", "LinkLoc.C28_syntax", "LinkLoc.C28_syntax_raised",
         "LinkLoc.C28_ref", "LinkLoc.C28_total", "LinkLoc.C28_unresolvable_pinned_false",
         "LinkLoc.C28_notunique_pinned_false",
+        "LinkLoc.C28_linecol_cr_dead", "LinkLoc.C28_unresolvable_first", "LinkLoc.C28_unresolvable_raised",
+        "LinkLoc.C28_unresolvable_iff", "LinkLoc.C28_giveup_round_unique",
     ]
     DRIVER = "Drivers/Positions.lean"
     QUICK_CASES = 480
